@@ -21,7 +21,7 @@ class QueryPostprocessingTransformation(Transformation):
     """Query post processing transformation base class."""
 
     processing_item: "QueryPostprocessingItem" | None = field(
-        init=False, compare=False, default=None
+        init=False, compare=False, repr=False, default=None
     )
 
     @abstractmethod
